@@ -480,3 +480,41 @@ def _load_floors():
 
 
 _load_floors()
+
+
+TECHNIQUE = {
+    "C01": "runtime monitoring: online transition oracle (independent reference model) at the step/generative_step boundary under scripted draws; exhaustive BFS of micro-scenarios",
+    "C02": "runtime monitoring: online transition oracle for the four network gates (reference model over both firewall layers) under scripted draws; exhaustive BFS of micro-scenarios",
+    "C03": "runtime monitoring: state-invariant hook on every observed state plus transition rule on the discovered flags; exhaustive BFS of bounded scenarios",
+    "C04": "runtime monitoring: offline history checker over recorded episodes (monotone status, frozen configuration, reset == independent encoding of the initial state)",
+    "C05": "runtime monitoring: online reward/value oracle plus per-episode conservation and paid-at-most-once history checker",
+    "C06": "runtime monitoring: boundary call counter and goal predicate on independently decoded states, goal queries on other and synthetic states",
+    "C07": "runtime monitoring: draws scripted either side of p through NumPy's global RandomState with RNG-word accounting, icontract class invariant on ActionResult, frequency fallback",
+    "C08": "runtime monitoring: observation oracle (own entitlement table over an independent layout decoder) on every reset/step/look-ahead",
+    "C09": "runtime monitoring: differential against an independent encoder/decoder of the documented layout, 1D/2D twin environments, from-array and readable round trips",
+    "C10": "runtime monitoring: membership oracle (gymnasium Space.contains) over observed observations and stepped action representations",
+    "C11": "runtime monitoring: differential enumeration (flat list, every parameterised vector below the cap, masks in visited states) and cross-process mapping comparison",
+    "C12": "runtime monitoring: differential trajectories over the eight mode combinations (sequential and lock-step)",
+    "C13": "runtime monitoring: before/after snapshots at the API boundary, icontract purity post-conditions inside Network/HostVector/State, repeated probes on pooled states",
+    "C14": "runtime monitoring: cross-process differential runner (PYTHONHASHSEED sweep, per-child case order), scenario and trajectory fingerprints",
+    "C15": "runtime monitoring: clause-by-clause validator on generator output under a sys.monitoring line-event budget (termination on logical steps)",
+    "C16": "runtime monitoring: model-derived attack plan replayed through NASimEnv.step with forced draws; real-environment closure before 'unsolvable'",
+    "C17": "runtime monitoring: field differential against an independent YAML reader and behavioural differential under the C01/C02 monitors",
+    "C18": "fault enumeration: catalogue of single-rule corruptions applied to valid documents, loader must raise",
+    "C19": "runtime monitoring: solo vs interleaved trace differential over enumerated / sampled schedules of two environments, layout-mechanism classifier, shim mode",
+    "C20": "runtime monitoring: exact optimisation over the executed monotone episode graph of the real environment compared with the advertised bound; executed minimal-host episodes for the hop clause",
+}
+ENGINE_OF = {}
+for _e in ENGINES:
+    for _p in _e["serves_properties"]:
+        ENGINE_OF[_p] = _e["name"]
+for _p, _c in PROPS.items():
+    _c["technique"] = TECHNIQUE[_p]
+    _c["engine"] = ENGINE_OF.get(_p, "nv")
+    _c["level_text"] = (
+        "Held on the executions observed (never 'verified'): " + _c["rule"] +
+        ".  This is the right level because the property quantifies over "
+        "scenarios, histories and draws that only executing the real code "
+        "under a generated, hostile workload with an independent oracle "
+        "can sample; coverage counters, floors and the lines of nasim "
+        "actually executed are written to the evidence.")
